@@ -32,6 +32,38 @@ fn render_diff_header_path(path: &str, is_new: bool, style: cmd_args::DiffStyle)
 #[global_allocator]
 static GLOBAL: mimalloc::MiMalloc = mimalloc::MiMalloc;
 
+/// Replace `path` with `content` without ever exposing a truncated or partially written file:
+/// the new content goes to a temporary file in the same directory, is flushed to disk and then
+/// renamed over the original. A crash or a write error (full disk, file size limit) leaves the
+/// original file untouched.
+fn write_file_atomically(path: &std::path::Path, content: &str) -> io::Result<()> {
+    let dir = match path.parent() {
+        Some(dir) if !dir.as_os_str().is_empty() => dir.to_path_buf(),
+        _ => std::path::PathBuf::from("."),
+    };
+    let file_name = path
+        .file_name()
+        .map(|name| name.to_string_lossy().to_string())
+        .unwrap_or_default();
+    let tmp_path = dir.join(format!(".{file_name}.luafmt-{}.tmp", std::process::id()));
+
+    let result = (|| {
+        let mut file = fs::File::create(&tmp_path)?;
+        file.write_all(content.as_bytes())?;
+        if let Ok(metadata) = fs::metadata(path) {
+            file.set_permissions(metadata.permissions())?;
+        }
+        file.sync_all()?;
+        drop(file);
+        fs::rename(&tmp_path, path)
+    })();
+
+    if result.is_err() {
+        let _ = fs::remove_file(&tmp_path);
+    }
+    result
+}
+
 fn read_stdin_to_string() -> io::Result<String> {
     let mut s = String::new();
     io::stdin().read_to_string(&mut s)?;
@@ -332,7 +364,7 @@ fn main() {
                         }
                     }
                 } else if args.write {
-                    if changed && let Err(e) = fs::write(path, formatted) {
+                    if changed && let Err(e) = write_file_atomically(path, &formatted) {
                         eprintln!("Failed to write {}: {e}", path.to_string_lossy());
                         exit_code = 2;
                     }
